@@ -172,15 +172,90 @@ theorem getter_code (fns : List Fn) (x : Getter) (h : checkGetterCode g fns x = 
           rw [hf, getFieldLogFrom_val, hbits]
   · cases hm
 
+/-- Core of `setter_code`: a function whose body is what a setter record says behaves as the record. -/
+theorem setter_body_code (x : Setter) (F : Fn) (hbody : some F.body = expectedSetterBody x)
+    (ht : x.table = g.tableName) (hN : x.numFields < 256) (hNl : x.numFields ≤ g.table.length)
+    (hfo : fieldOK x.field = true)
+    (pdu : Option Nat) (hpdu : ∀ p, pdu = some p → p ≠ 0 ∧ p + 1024 ≤ 18446744073709551616)
+    (arg v : Nat) (harg : arg < 4294967296) (hv : v < 2 ^ x.valueBits) (hvb : x.valueBits ≤ 64) (m : Mem)
+    (l0 : List Access) :
+    (exec (mkEnv e rom glob) 31 F.body
+        (mkFrame (match x.field with | none => [pdu.getD 0, arg, v] | some _ => [pdu.getD 0, v])) ⟨m, l0⟩).map
+      (fun r => r.2.2.mem) = some (x.run g.table e m pdu arg v) := by
+  have hv64 : v < 18446744073709551616 :=
+    Nat.lt_of_lt_of_le hv (by
+      calc 2 ^ x.valueBits ≤ 2 ^ 64 := Nat.pow_le_pow_right (by decide) hvb
+        _ = 18446744073709551616 := by decide)
+  have hgl : glob x.table = tb := by rw [ht]; exact hglob
+  unfold expectedSetterBody at hbody
+  cases hf : x.field with
+  | none =>
+    rw [hf] at hbody
+    simp only at hbody ⊢
+    split at hbody
+    · rename_i hc
+      obtain ⟨hv64b, hc32⟩ := hc
+      have hb : F.body = _ := (Option.some.inj hbody)
+      rw [hb]
+      have hargs : evalArgs (mkEnv e rom glob) (mkFrame [pdu.getD 0, arg, v])
+          [.glob x.table, .cast .i32 .u8 (.lit x.numFields), .var 0, .var 1, .var 2] = some [tb, x.numFields, pdu.getD 0, arg, v] := by
+        simp (disch := omega) [evalArgs, evalE, hgl, conv_i32_u8, Nat.mod_eq_of_lt]
+      rw [call_SetField e rom glob g.table tb hrom hvalid 30 (by decide) _ _ none x.numFields arg v pdu hargs hN harg hv64 hNl hpdu m l0]
+      simp only [Option.map, setFieldLogFrom_mem]
+      congr 1
+      unfold Setter.run fieldArg
+      rw [hf, hc32]
+      simp only
+      rw [Nat.mod_eq_of_lt harg, Nat.mod_eq_of_lt hv]
+    · cases hbody
+  | some fk =>
+    obtain ⟨en, k⟩ := fk
+    rw [hf] at hbody hfo
+    simp only [fieldOK, decide_eq_true_eq] at hfo
+    simp only at hbody ⊢
+    split at hbody
+    · rename_i h64
+      have hb : F.body = _ := (Option.some.inj hbody)
+      rw [hb]
+      have hargs : evalArgs (mkEnv e rom glob) (mkFrame [pdu.getD 0, v])
+          [.glob x.table, .cast .i32 .u8 (.lit x.numFields), .var 0, .cast .i32 .u32 (.lit k), .var 1] = some [tb, x.numFields, pdu.getD 0, k, v] := by
+        simp (disch := omega) [evalArgs, evalE, hgl, conv_i32_u8, conv_i32_u32, Nat.mod_eq_of_lt]
+      rw [call_SetField e rom glob g.table tb hrom hvalid 30 (by decide) _ _ none x.numFields k v pdu hargs hN (by omega) hv64 hNl hpdu m l0]
+      simp only [Option.map, setFieldLogFrom_mem]
+      congr 1
+      unfold Setter.run fieldArg
+      rw [hf]
+      simp only
+      rw [Nat.mod_eq_of_lt hv]
+    · cases hty : tyOfBits x.valueBits with
+      | none => rw [hty] at hbody; cases hbody
+      | some ty =>
+        rw [hty] at hbody
+        obtain ⟨hbits, hsg⟩ := tyOfBits_bits hty
+        have hb : F.body = _ := (Option.some.inj hbody)
+        rw [hb]
+        have hargs : evalArgs (mkEnv e rom glob) (mkFrame [pdu.getD 0, v])
+            [.glob x.table, .cast .i32 .u8 (.lit x.numFields), .var 0, .cast .i32 .u32 (.lit k), .cast ty .u64 (.var 1)]
+            = some [tb, x.numFields, pdu.getD 0, k, v] := by
+          simp (disch := omega) [evalArgs, evalE, hgl, conv_i32_u8, conv_i32_u32, Nat.mod_eq_of_lt, conv_of_unsigned _ _ _ hsg, Ty.bits]
+        rw [call_SetField e rom glob g.table tb hrom hvalid 30 (by decide) _ _ none x.numFields k v pdu hargs hN (by omega) hv64 hNl hpdu m l0]
+        simp only [Option.map, setFieldLogFrom_mem]
+        congr 1
+        unfold Setter.run fieldArg
+        rw [hf]
+        simp only
+        rw [Nat.mod_eq_of_lt hv]
+
 /-- **Setters, as C text.**  Running the body of the function the check matched leaves the memory
     the accessor record's meaning (`Setter.run`) describes.  The frame is `[pdu, field, value]` for
     the generic writer and `[pdu, value]` for a dedicated setter. -/
 theorem setter_code (fns : List Fn) (x : Setter) (h : checkSetterCode g fns x = true)
     (pdu : Option Nat) (hpdu : ∀ p, pdu = some p → p ≠ 0 ∧ p + 1024 ≤ 18446744073709551616)
-    (arg v : Nat) (harg : arg < 4294967296) (hv : v < 2 ^ x.valueBits) (hvb : x.valueBits ≤ 64) (m : Mem) :
+    (arg v : Nat) (harg : arg < 4294967296) (hv : v < 2 ^ x.valueBits) (hvb : x.valueBits ≤ 64) (m : Mem)
+    (l0 : List Access := []) :
     ∃ F ∈ fns, F.name = x.fn ∧
       (exec (mkEnv e rom glob) 31 F.body
-          (mkFrame (match x.field with | none => [pdu.getD 0, arg, v] | some _ => [pdu.getD 0, v])) ⟨m, []⟩).map
+          (mkFrame (match x.field with | none => [pdu.getD 0, arg, v] | some _ => [pdu.getD 0, v])) ⟨m, l0⟩).map
         (fun r => r.2.2.mem) = some (x.run g.table e m pdu arg v) := by
   simp only [checkSetterCode, Bool.and_eq_true, beq_iff_eq, decide_eq_true_eq, Bool.not_eq_true'] at h
   obtain ⟨⟨⟨⟨⟨ht, hN⟩, hNl⟩, hfo⟩, _⟩, hm⟩ := h
@@ -209,7 +284,7 @@ theorem setter_code (fns : List Fn) (x : Setter) (h : checkSetterCode g fns x = 
         have hargs : evalArgs (mkEnv e rom glob) (mkFrame [pdu.getD 0, arg, v])
             [.glob x.table, .cast .i32 .u8 (.lit x.numFields), .var 0, .var 1, .var 2] = some [tb, x.numFields, pdu.getD 0, arg, v] := by
           simp (disch := omega) [evalArgs, evalE, hgl, conv_i32_u8, Nat.mod_eq_of_lt]
-        rw [call_SetField e rom glob g.table tb hrom hvalid 30 (by decide) _ _ none x.numFields arg v pdu hargs hN harg hv64 hNl hpdu m []]
+        rw [call_SetField e rom glob g.table tb hrom hvalid 30 (by decide) _ _ none x.numFields arg v pdu hargs hN harg hv64 hNl hpdu m l0]
         simp only [Option.map, setFieldLogFrom_mem]
         congr 1
         unfold Setter.run fieldArg
@@ -229,7 +304,7 @@ theorem setter_code (fns : List Fn) (x : Setter) (h : checkSetterCode g fns x = 
         have hargs : evalArgs (mkEnv e rom glob) (mkFrame [pdu.getD 0, v])
             [.glob x.table, .cast .i32 .u8 (.lit x.numFields), .var 0, .cast .i32 .u32 (.lit k), .var 1] = some [tb, x.numFields, pdu.getD 0, k, v] := by
           simp (disch := omega) [evalArgs, evalE, hgl, conv_i32_u8, conv_i32_u32, Nat.mod_eq_of_lt]
-        rw [call_SetField e rom glob g.table tb hrom hvalid 30 (by decide) _ _ none x.numFields k v pdu hargs hN (by omega) hv64 hNl hpdu m []]
+        rw [call_SetField e rom glob g.table tb hrom hvalid 30 (by decide) _ _ none x.numFields k v pdu hargs hN (by omega) hv64 hNl hpdu m l0]
         simp only [Option.map, setFieldLogFrom_mem]
         congr 1
         unfold Setter.run fieldArg
@@ -247,7 +322,7 @@ theorem setter_code (fns : List Fn) (x : Setter) (h : checkSetterCode g fns x = 
               [.glob x.table, .cast .i32 .u8 (.lit x.numFields), .var 0, .cast .i32 .u32 (.lit k), .cast ty .u64 (.var 1)]
               = some [tb, x.numFields, pdu.getD 0, k, v] := by
             simp (disch := omega) [evalArgs, evalE, hgl, conv_i32_u8, conv_i32_u32, Nat.mod_eq_of_lt, conv_of_unsigned _ _ _ hsg, Ty.bits]
-          rw [call_SetField e rom glob g.table tb hrom hvalid 30 (by decide) _ _ none x.numFields k v pdu hargs hN (by omega) hv64 hNl hpdu m []]
+          rw [call_SetField e rom glob g.table tb hrom hvalid 30 (by decide) _ _ none x.numFields k v pdu hargs hN (by omega) hv64 hNl hpdu m l0]
           simp only [Option.map, setFieldLogFrom_mem]
           congr 1
           unfold Setter.run fieldArg
